@@ -247,11 +247,6 @@ theorem unknown_level_refused (c : Cfg) (s : Sess) (op : Op) (hsk : opSkips c s 
     (hlv : opLevel c op ∉ names c.L) : runOp c s op = (some .privilege, s) :=
   runOp_unknown c s op hsk hlv
 
-/-! ## the generated constants the operations rely on -/
-
-/-- the sentinel the cache is reset to is the string the source uses -/
-theorem unknown_sentinel : unknownPriv = [85, 78, 75, 78, 79, 87, 78] := by decide
-
 /-! ## the hypotheses are satisfiable and the statements are not vacuous: an IOS-like tree with
 an authenticated edge, a device that asks for the password, a reversing map order -/
 
